@@ -11,10 +11,11 @@ sample, in a forked pristine process; (2) fault-free calls must equal an
 independent reference printer; (3) fixed probes after the history.
 """
 import os
+import signal
 import sys
 import types
 
-from sim.engines.crashpoints import CrashTracer, InjectedFault, InjectedBaseFault
+from sim.engines.crashpoints import CrashTracer, InjectedFault, InjectedBaseFault, StepCapExceeded
 
 PROPERTY = "C28"
 LEVEL = "exploration"
@@ -34,6 +35,12 @@ ASSUMPTIONS = ["asynchronous exceptions between hy-repr's own bookkeeping lines 
                "set literals have at most one element (iteration order of larger sets is not the property's concern)"]
 
 _S = {}
+STEP_CAP = 200000
+WATCHDOG_CPU_S = 20
+
+
+def _watchdog(signum, frame):
+    raise StepCapExceeded("watchdog: %d s of CPU time in one hy.repr call" % WATCHDOG_CPU_S)
 
 
 class PlanError(Exception):
@@ -48,6 +55,7 @@ class _Ctx:
     repr = None  # the hy-repr function under which Box printers recurse
     register = None
     kept = None  # objects of earlier calls (system under test) / their specs (pristine instance)
+    kept_is_spec = False  # which of the two CTX.kept holds (a kept *object* may itself be a Python dict)
 
 
 CTX = _Ctx()
@@ -271,7 +279,7 @@ def build(spec, anc=None):
         return anc[-spec["up"]]
     if t == "kept":
         k = CTX.kept[spec["i"]]
-        return build(k, []) if isinstance(k, dict) else k
+        return build(k, []) if CTX.kept_is_spec else k
     if t == "list":
         l = []
         anc.append(l)
@@ -595,11 +603,12 @@ def _has_raise(spec):
 # ------------------------------------------------------------------ execution
 
 
-def _call(fn, hy_repr_code, spec, k, exc, register=None, kept=None, keep_into=None):
+def _call(fn, hy_repr_code, spec, k, exc, register=None, kept=None, keep_into=None, kept_is_spec=False):
     """One hy.repr call under the crash-point tracer. Returns (outcome, N, fired)."""
     CTX.repr = fn
     CTX.register = register
     CTX.kept = kept
+    CTX.kept_is_spec = kept_is_spec
     value = build(spec)
     if keep_into is not None:
         keep_into[0] = value
@@ -607,7 +616,16 @@ def _call(fn, hy_repr_code, spec, k, exc, register=None, kept=None, keep_into=No
     # simulator's Box printers; frames of the standard library below them are excluded, because their line counts
     # depend on caches warmed by earlier calls (enum pseudo-members, re cache), which would make k land elsewhere
     files = (hy_repr_code.co_filename, __file__)
-    tr = CrashTracer(lambda code: code is not hy_repr_code and code.co_filename in files, k=k, exc=exc or "fault")
+    # step cap: the largest call of a quick batch on the unchanged tree takes < STEP_CAP / 50 printer line events; a
+    # printer that stops terminating (e.g. cycle detection lost under catch-and-continue printers) is cut off and
+    # the call's outcome is StepCapExceeded, which the oracles compare like any other outcome
+    tr = CrashTracer(lambda code: code is not hy_repr_code and code.co_filename in files, k=k, exc=exc or "fault",
+                     cap=STEP_CAP)
+    # backstop for the part of a call the tracer no longer sees (CPython un-sets tracing once an injected fault
+    # has been raised; a catching printer may continue from there): CPU-time watchdog, far above any call on a
+    # tree where printing terminates (milliseconds), so it never decides an outcome there
+    old = signal.signal(signal.SIGVTALRM, _watchdog)
+    signal.setitimer(signal.ITIMER_VIRTUAL, WATCHDOG_CPU_S)
     try:
         if spec["t"] == "deep":
             text = fn(value)  # untraced: the fault here is the RecursionError itself
@@ -615,9 +633,11 @@ def _call(fn, hy_repr_code, spec, k, exc, register=None, kept=None, keep_into=No
             with tr:
                 text = fn(value)
         out = ["ok", text]
-    except (Exception, InjectedBaseFault, PlanBaseError, KeyboardInterrupt) as e:
+    except (Exception, InjectedBaseFault, PlanBaseError, KeyboardInterrupt, StepCapExceeded) as e:
         out = ["exc", type(e).__name__]
     finally:
+        signal.setitimer(signal.ITIMER_VIRTUAL, 0)
+        signal.signal(signal.SIGVTALRM, old)
         CTX.repr = None
     if spec["t"] == "deep":
         # free the deep structure without recursion trouble
@@ -628,12 +648,13 @@ def _call(fn, hy_repr_code, spec, k, exc, register=None, kept=None, keep_into=No
 
 def _pristine_call(spec, k, exc, kept_specs=None):
     m = _fresh_instance()
-    return _call(m.hy_repr, m.hy_repr.__code__, spec, k, exc, register=m.hy_repr_register, kept=kept_specs)
+    return _call(m.hy_repr, m.hy_repr.__code__, spec, k, exc, register=m.hy_repr_register, kept=kept_specs,
+                 kept_is_spec=True)
 
 
 def _forked_call(arg):
     spec, k, exc = arg
-    out, n, fired = _call(_S["sut_repr"], _S["sut_repr"].__code__, spec, k, exc)
+    out, n, fired = _call(_S["sut_repr"], _S["sut_repr"].__code__, spec, k, exc, register=_S["hy"].repr_register)
     return out
 
 
